@@ -2,7 +2,7 @@
 import os
 
 from .core import Ctx
-from .rules import k1, reclaim, schemes, seqlock, vyukov, harris, queues, deque, leftright, markedptr, progress, typestate, origin
+from .rules import k1, reclaim, schemes, seqlock, vyukov, harris, queues, deque, leftright, markedptr, progress, typestate, origin, statics
 
 ALL_FILES = [".hpp"]
 RECL = ["reclamation/"]
@@ -30,6 +30,7 @@ FILES = {
 
 def k1_rules(ctx, prop):
     files = FILES[prop]
+    statics.rules(ctx, files, floor_tls=(10 if prop == "C03" else 0))
     k1.check_table(ctx, files)
     k1.check_comments(ctx, files)
     k1.check_tsan_geq(ctx, files)
@@ -131,6 +132,7 @@ def C04(ctx):
     queues.swing_cas_expected(ctx)
     harris.use_after_move(ctx, FILES["C04"])
     harris.guard_deref_after_release(ctx, FILES["C04"])
+    harris.expected_protected_until_cas(ctx, FILES["C04"])
     origin.rules(ctx, FILES["C04"], floor_guarded=150)
     return ("Decides structural necessary conditions of the three unbounded FIFO queues: link-before-swing and head/tail hand-over rules, ticket "
             "bounds and slot invalidation of the Ramalhete queue in every configuration, sticky finalisation flag of the SCQ (finite evaluation), "
@@ -155,6 +157,7 @@ def C06(ctx):
     queues.kfifo(ctx)
     harris.use_after_move(ctx, FILES["C06"])
     harris.guard_deref_after_release(ctx, FILES["C06"])
+    harris.expected_protected_until_cas(ctx, FILES["C06"])
     origin.rules(ctx, FILES["C06"], floor_guarded=30)
     return ("Decides: ABA tag discipline of every tagged CAS, release-after-commit in push, value only after winning the slot CAS, deleted-before-"
             "advance in the unbounded variant, index field fit of the bounded variant (constructor check surviving NDEBUG), memory orders.",
@@ -187,6 +190,7 @@ def C08(ctx):
     harris.iterator_rules(ctx)
     harris.use_after_move(ctx, FILES["C08"])
     harris.guard_deref_after_release(ctx, FILES["C08"])
+    harris.expected_protected_until_cas(ctx, FILES["C08"])
     origin.rules(ctx, FILES["C08"], floor_guarded=300)
     return ("Decides structural necessary conditions of the Harris-Michael set/map: total order of the search predicate (exhaustive), mark-then-"
             "unlink erase protocol with per-attempt validation of the expected value, insert protocol (next before link, same expected, searched "
@@ -205,6 +209,7 @@ def C09(ctx):
     harris.erase_protocol(ctx)
     harris.use_after_move(ctx, FILES["C09"])
     harris.guard_deref_after_release(ctx, FILES["C09"])
+    harris.expected_protected_until_cas(ctx, FILES["C09"])
     origin.rules(ctx, FILES["C09"], floor_guarded=300)
     return ("Decides: the re-scan predicate is a total order (exhaustive finite evaluation); iterators obtain successors through acquire_if_equal, "
             "keep prev paired with the save guard, copy the key before re-finding; erase(iterator) guards the successor before unlinking.",
